@@ -404,7 +404,7 @@ fn shrink(ctx: &mut Ctx, case: &Case, loader: Loader, f: &Finding) -> (Case, Fin
     let mut best = case.clone();
     let mut best_f = f.clone();
     let mut budget = 60;
-    let mut attempt = |ctx: &mut Ctx, cand: Case, best: &mut Case, best_f: &mut Finding, budget: &mut i32| -> bool {
+    let attempt = |ctx: &mut Ctx, cand: Case, best: &mut Case, best_f: &mut Finding, budget: &mut i32| -> bool {
         if *budget <= 0 || cand == *best {
             return false;
         }
